@@ -58,7 +58,15 @@ RULE = ('per format (v1, v2, v3 HDF5 files through katdal.open; v4 telstate + np
         'scan_index and target against the unselected arrays}; a case is one '
         'operation in its history; non-trivial when it is a read or observation under a selection that is neither '
         'everything nor empty, or a read through an indexer acquired before a later select(); distinct by (data set, '
-        'history prefix)')
+        'history prefix); ROUND 4 (props/c01win.py, c01cat.py; wire_1005): MVF v2 files whose RFE centre frequency is retuned '
+        'during the observation (2-3 spectral windows, 1-4 retunes returning to an earlier window, version 2.0 / 2.1, 6-12 '
+        'dumps on regular / dropped-dump / late-last / late-interior grids, duplicate final dump, time_offset) and 2-3 v2 or '
+        'v3 files opened together (1-3 centre frequencies x 1-2 product orderings = subarrays, labels injective across the '
+        'files) x histories of 6-14 operations: select() calls of the extended C02 generator (spw= / subarray= incl. illegal '
+        'values, every criterion kind and surface form, every reset string, the bare select()) with 22 % "another window / '
+        'subarray", 18 % "time criterion on the current window", acquisitions, reads through any earlier indexer, '
+        'observations compared with the centre frequency / product ordering every dump was WRITTEN with, the documented '
+        'frequency axis of that centre frequency, the labelled stored arrays; + 7 scripted corpus histories')
 ASSUMPTIONS = ['stored samples are labels (small integers exactly representable in float32 / complex64); timestamps, '
                'dump periods and offsets are dyadic rationals, so every comparison is exact equality',
                'sensor histories: numeric nodes every half dump period with values = integer multiples of it (integer '
@@ -77,8 +85,17 @@ ASSUMPTIONS = ['stored samples are labels (small integers exactly representable 
                'element must be answered; a read that selects nothing may raise (v1: ConcatenatedLazyIndexer on empty '
                'heads / tails = open C05 findings F10 / F10b, zero products cannot be stacked) and is recorded as '
                'unanswered: the model answers with an empty array there',
-               'select() calls are those of the C02 generator (single spectral window / subarray); a call that raises '
-               'other than the strict TypeError ends the history',
+               'select() calls are those of the C02 generator (single-window data sets) or of its extended generator with '
+               'spw= / subarray= (multi-window data sets); a call that raises other than the documented TypeError / IndexError '
+               'ends the history',
+               'multi-window fixtures: centre frequencies a whole number of quarter channels apart (one integer frequency '
+               'grid for all windows); a retune happens dt / 32 after the start of a dump that starts at least a full dump period '
+               'after its predecessor (overlapping dumps share that instant and the readers attribute an event to the '
+               'earliest dump it falls in), interior dumps are late, never early (the v2 reader decides the window of a dump '
+               'on its estimated grid: open finding C01r-F1; both grids then agree on every retune); files opened '
+               'together: same channel / product counts, no duplicate final dump, regular grids, their stored arrays laid '
+               'end to end are the stored array (ConcatenatedLazyIndexer / ConcatenatedSensorCache: C19), only Observation/* '
+               'sensors compared',
                'v4: no applycal, no lost chunks (C13 / C06 own those), weights without power scaling']
 
 FMTS = ['v1', 'v2', 'v3', 'v4']
@@ -1356,6 +1373,11 @@ def run(ctx):
                     ctx.count('histories')
             finally:
                 fx.close()
+    # data sets with several spectral windows (v2 files whose centre frequency is retuned): props/c01win.py, wire_1005
+    from props import c01cat, c01win
+    c01win.run(ctx)
+    # ... and several subarrays: v2 / v3 files opened together (props/c01cat.py, same model)
+    c01cat.run(ctx)
     ctx.extra['unanswered_reads'] = ctx.dist.get('unanswered', 0)
     ctx.extra['observation_models_skipped'] = len(SKIPPED)
     if ctx.tier == 'thorough':
@@ -1379,6 +1401,9 @@ def replay(ctx, doc):
     hid = case.get('hid', {})
     if hid.get('kind') == 'witness':
         return run_witness(ctx, hid['witness'])
+    if hid.get('kind') in ('win', 'win_corpus', 'cat'):
+        from props import c01win
+        return c01win.replay(ctx, hid)
     if 'witness' in case:
         return run_witness(ctx, case['witness'])
     try:
